@@ -113,6 +113,9 @@ pub enum Extra {
     /// a complete data directory (blk files, index, key file) in the sub-directory `name` of this one: a copy nested into
     /// itself by a careless `cp -r` / `rsync` without the trailing slash
     Nested(String, Box<World>),
+    /// blk file number n is kept in the sibling directory `<dir>.archive/` under its own name and the data directory holds a
+    /// symbolic link to it (older files moved to a bigger disk and linked back)
+    Archived(u64),
 }
 
 #[derive(Clone, Debug)]
@@ -247,6 +250,7 @@ impl World {
                 Extra::Dir(n) => json!(["dir", n]),
                 Extra::Symlink(n, t) => json!(["symlink", n, t]),
                 Extra::Nested(n, w) => json!(["nested", n, w.describe()]),
+                Extra::Archived(n) => json!(["archived", n.to_string()]),
             })
             .collect();
         json!({"coin": self.coin.name, "files": files, "index_ops": ops, "xor_key": self.xor_key.as_ref().map(|k| hex(k)), "extra": extra})
@@ -278,6 +282,7 @@ impl World {
                 "file" => w.extra.push(Extra::File(e[1].as_str().unwrap().to_string(), unhex(e[2].as_str().unwrap()))),
                 "symlink" => w.extra.push(Extra::Symlink(e[1].as_str().unwrap().to_string(), e[2].as_str().unwrap().to_string())),
                 "nested" => w.extra.push(Extra::Nested(e[1].as_str().unwrap().to_string(), Box::new(World::from_description(&e[2])))),
+                "archived" => w.extra.push(Extra::Archived(e[1].as_str().unwrap().parse().unwrap())),
                 _ => w.extra.push(Extra::Dir(e[1].as_str().unwrap().to_string())),
             }
         }
@@ -313,6 +318,17 @@ impl World {
                     std::os::unix::fs::symlink(t, dir.join(n))?
                 }
                 Extra::Nested(n, w) => w.materialise(&dir.join(n))?,
+                Extra::Archived(n) => {
+                    if let Some(f) = self.files.get(n) {
+                        let mut arch = dir.as_os_str().to_os_string();
+                        arch.push(".archive");
+                        let arch = std::path::PathBuf::from(arch);
+                        fs::create_dir_all(&arch)?;
+                        let _ = fs::remove_file(arch.join(&f.name));
+                        fs::rename(dir.join(&f.name), arch.join(&f.name))?;
+                        std::os::unix::fs::symlink(arch.join(&f.name), dir.join(&f.name))?
+                    }
+                }
             }
         }
         write_index(&dir.join("index"), &self.index_ops).map_err(|e| std::io::Error::new(std::io::ErrorKind::Other, format!("leveldb: {}", e)))?;
